@@ -148,8 +148,9 @@ func requiredSlots(md protoreflect.MessageDescriptor, path []protoreflect.FieldD
 }
 
 // buildFull creates a message in which every field on a path to a required field exists and every
-// required field is set.  oneofPick chooses, per real oneof, which member is populated.
-func buildFull(md protoreflect.MessageDescriptor, depth int) *dynamicpb.Message {
+// required field is set to the vi-th boundary value of its kind (index 0 is the zero value: a proto2 field
+// set to 0, "", false or empty bytes is set).
+func buildFull(md protoreflect.MessageDescriptor, depth int, vi int) *dynamicpb.Message {
 	m := dynamicpb.NewMessage(md)
 	chosen := map[protoreflect.FullName]bool{}
 	for i := 0; i < md.Fields().Len(); i++ {
@@ -168,7 +169,7 @@ func buildFull(md protoreflect.MessageDescriptor, depth int) *dynamicpb.Message 
 		}
 		switch {
 		case child != nil && depth < 3:
-			sub := protoreflect.ValueOfMessage(buildFull(child, depth+1))
+			sub := protoreflect.ValueOfMessage(buildFull(child, depth+1, vi))
 			switch {
 			case fd.IsMap():
 				mp := m.NewField(fd).Map()
@@ -182,7 +183,8 @@ func buildFull(md protoreflect.MessageDescriptor, depth int) *dynamicpb.Message 
 				m.Set(fd, sub)
 			}
 		case child == nil && fd.Cardinality() == protoreflect.Required:
-			m.Set(fd, boundaryScalars(fd.Kind())[1])
+			vs := boundaryFor(fd)
+			m.Set(fd, vs[vi%len(vs)])
 		}
 	}
 	return m
@@ -286,7 +288,7 @@ func posOf(unset []string) string {
 }
 
 func TestC17(t *testing.T) {
-	rec := ev.New("C17", "case = (proto2 generated type with required fields of its own or in children reached through a field / required field / list / map / oneof, subset of those required fields left unset); every subset is enumerated per type (up to 2^8), plus the completely empty message and the empty input; oracle = reference verdict: Marshal fails <=> proto.CheckInitialized fails; generated Unmarshal of the reference's AllowPartial encoding fails <=> the strict reference Unmarshal fails; non-trivial = >= 1 required field unset; distinct by (type, subset)")
+	rec := ev.New("C17", "case = (proto2 generated type with required fields of its own or in children reached through a field / required field / list / map / oneof, subset of those required fields left unset); every subset is enumerated per type (up to 2^8) with the required scalars set to the zero value of their kind and to 1, and the complete message and every single-field subset with 7 further boundary values, plus the completely empty message and the empty input; oracle = reference verdict: Marshal fails <=> proto.CheckInitialized fails; generated Unmarshal of the reference's AllowPartial encoding fails <=> the strict reference Unmarshal fails; non-trivial = >= 1 required field unset; distinct by (type, subset, value choice)")
 	defer rec.Write()
 	useRecorder(rec)
 	defer func() { t.Log(rec.Summary()); fmt.Print(rec.SurveyReport()) }()
@@ -303,27 +305,37 @@ func TestC17(t *testing.T) {
 			slots = slots[:8]
 			exhaustive = false
 		}
-		for mask := 0; mask < 1<<len(slots); mask++ {
-			full := buildFull(mt.Desc, 0)
-			var unset []string
-			for i, s := range slots {
-				if mask&(1<<i) != 0 && clearSlot(full, s) {
-					unset = append(unset, s.String())
+		for vi := 0; vi < 9; vi++ {
+			for mask := 0; mask < 1<<len(slots); mask++ {
+				// every subset with the first two value choices (zero value, 1); for the other boundary
+				// values the complete message and the single-field subsets
+				if vi > 1 && mask&(mask-1) != 0 {
+					continue
 				}
+				full := buildFull(mt.Desc, 0, vi)
+				var unset []string
+				for i, s := range slots {
+					if mask&(1<<i) != 0 && clearSlot(full, s) {
+						unset = append(unset, s.String())
+					}
+				}
+				b, err := refMarshal.Marshal(full)
+				if err != nil {
+					panic(err)
+				}
+				c := &RCase{Type: mt.Key(), Value: b, Unset: unset}
+				rec.Eval(1)
+				rec.Class("variant/" + mt.Info.Variant)
+				rec.Class(fmt.Sprintf("required-value-choice/%d", vi))
+				if len(unset) > 0 {
+					rec.NonTrivialEnum(1)
+					rec.Class("position/" + posOf(unset))
+					rec.Sample(mt.Info.Variant+"/"+posOf(unset), map[string]any{"type": c.Type, "unset": unset, "value_hex": fmt.Sprintf("%.80x", b)})
+				} else {
+					rec.Class("complete-message")
+				}
+				rec.Check(t, "rcase", c, oracleC17(c))
 			}
-			b, err := refMarshal.Marshal(full)
-			if err != nil {
-				panic(err)
-			}
-			c := &RCase{Type: mt.Key(), Value: b, Unset: unset}
-			rec.Eval(1)
-			rec.Class("variant/" + mt.Info.Variant)
-			if len(unset) > 0 {
-				rec.NonTrivialEnum(1)
-				rec.Class("position/" + posOf(unset))
-				rec.Sample(mt.Info.Variant+"/"+posOf(unset), map[string]any{"type": c.Type, "unset": unset, "value_hex": fmt.Sprintf("%x", b)})
-			}
-			rec.Check(t, "rcase", c, oracleC17(c))
 		}
 		// the empty message and the empty input
 		c := &RCase{Type: mt.Key(), Value: []byte{}, Unset: []string{"(everything)"}, Empty: true}
